@@ -369,6 +369,12 @@ func checkBookkeeping(c *Ctx) {
 			}
 			return true
 		})
+		if a.wantApp == 0 && apps == 0 && condApps > 0 {
+			// a reference adds no definition of its own; a definition appended under a condition (e.g. only when the entry was
+			// just created, which is another way of writing the literal's self-definition) is not decided by this rule
+			c.Undecided("R7.3", a.name+": appends exactly 0 definition(s), unconditionally", fd.Pos(), fmt.Sprintf("%d conditional assignments to the definitions: under which condition is not followed", condApps))
+			continue
+		}
 		c.Check("R7.3", a.name+": appends exactly "+fmt.Sprint(a.wantApp)+" definition(s), unconditionally", fd.Pos(), apps == a.wantApp && condApps == a.wantApp,
 			fmt.Sprintf("%d unconditional and %d total assignments to definitions", apps, condApps))
 		if a.wantApp == 1 && lit != nil {
